@@ -348,12 +348,12 @@ type Mismatch struct {
 }
 
 type Summary struct {
-	Cases      int        `json:"cases"`
-	Steps      int        `json:"steps"`
-	Distinct   int        `json:"distinct_nontrivial"`
-	Mismatches []Mismatch `json:"mismatches"`
-	NMismatch  int        `json:"n_mismatch"`
-	Samples    []Case     `json:"samples"`
+	Cases      int            `json:"cases"`
+	Steps      int            `json:"steps"`
+	Distinct   int            `json:"distinct_nontrivial"`
+	Mismatches []Mismatch     `json:"mismatches"`
+	NMismatch  int            `json:"n_mismatch"`
+	Samples    []Case         `json:"samples"`
 	OpCount    map[string]int `json:"op_count"`
 }
 
